@@ -718,6 +718,20 @@ class Normalizer:
         eye = self._eye_rows(st, env)
         if eye is not None:
             st = eye
+        # N47: `for i, x in enumerate(L)` over a sequence the body does not re-bind is `for i in range(len(L)): x = L[i]`
+        if isinstance(st, ast.For) and isinstance(st.target, ast.Tuple) and len(st.target.elts) == 2 and all(isinstance(e_, ast.Name) for e_ in st.target.elts) \
+                and isinstance(st.iter, ast.Call) and isinstance(st.iter.func, ast.Name) and st.iter.func.id == 'enumerate' and len(st.iter.args) == 1 \
+                and not st.iter.keywords and isinstance(st.iter.args[0], ast.Name) and not st.orelse \
+                and not any(isinstance(n_, ast.Name) and n_.id == st.iter.args[0].id and isinstance(n_.ctx, ast.Store) for n_ in ast.walk(st)):
+            import copy as _copy
+            cnt, item, seq = st.target.elts[0].id, st.target.elts[1].id, st.iter.args[0].id
+            new_ = ast.For(target=ast.Name(id=cnt, ctx=ast.Store()),
+                           iter=ast.Call(func=ast.Name(id='range', ctx=ast.Load()), args=[ast.Call(func=ast.Name(id='len', ctx=ast.Load()), args=[ast.Name(id=seq, ctx=ast.Load())], keywords=[])], keywords=[]),
+                           body=[ast.Assign(targets=[ast.Name(id=item, ctx=ast.Store())], value=ast.Subscript(value=ast.Name(id=seq, ctx=ast.Load()), slice=ast.Name(id=cnt, ctx=ast.Load()), ctx=ast.Load()))]
+                           + [_copy.deepcopy(b_) for b_ in st.body], orelse=[])
+            ast.copy_location(new_, st)
+            ast.fix_missing_locations(new_)
+            st = new_
         if any(isinstance(n_, ast.Continue) for n_ in ast.walk(st)):
             folded = self._fold_continue(st.body)
             if not any(isinstance(n_, ast.Continue) for x_ in folded for n_ in ast.walk(x_)):
@@ -862,6 +876,23 @@ class Normalizer:
                     for v2 in carried:
                         bodies[v2] = self._resubst(bodies[v2], lvk, cur)
                     break
+            # N45: a carried value that every round hands on unchanged WHEN it starts the round at its initial value (a buffer that is set and
+            # reset around a call) has its initial value in every round (induction over the rounds): it is that value
+            for k, v in enumerate(carried):
+                if v == '$eff' or not isinstance(inits[v], tuple) or bodies[v] == ('lv', d, k):
+                    continue
+                if not self._mentions_loop(bodies[v], d, carried_only=True):
+                    continue
+                lvk = ('lv', d, k)
+                try:
+                    at_init = self._resubst(bodies[v], lvk, inits[v])
+                except Exception:  # noqa
+                    continue
+                if at_init == inits[v] and not self._mentions_loop(inits[v], d):
+                    for v2 in carried:
+                        bodies[v2] = self._resubst(bodies[v2], lvk, inits[v])
+                    if isinstance(header, tuple) and header[0] == 'while':
+                        header = ('while', self._resubst(header[1], lvk, inits[v]))
             # N36: a placeholder list `[x] * (T + 1)` whose element T is stored before `for i in range(T)` and whose element i is stored by the
             # loop (or `[x] * T` with every element stored by the loop) has every element overwritten: the placeholder item is immaterial
             if isinstance(st, ast.For) and header[1][0] == 'call' and header[1][1] == 'range' and len(header[1][2]) == 1 and not header[1][3]:
@@ -1102,6 +1133,21 @@ class Normalizer:
             return a
         if a == ('k', True) and b == ('k', False) and c[0] in ('cmp', 'and', 'or', 'not'):
             return c
+        # N46: two lists of the same length n selected by `n < 1` (or `n <= 0`): both are empty when the test holds, so the other arm is the value
+        if isinstance(a, tuple) and isinstance(b, tuple) and a and b and a[0] == 'lam' and b[0] == 'lam' and len(a) == 4 and len(b) == 4 and a[2] == b[2] \
+                and c[0] == 'cmp' and len(c) == 4 and (c in (canon_cmp('<', a[2], num(1)), canon_cmp('<=', a[2], num(0)), canon_cmp('>', num(1), a[2]), canon_cmp('>=', num(0), a[2]))):
+            return ('lam', b[1], b[2], b[3])
+        # N43: a conditional between two tuples of the same length is the tuple of the conditionals (`if c: return (a, b)` / `return (a', b')`)
+        if isinstance(a, tuple) and isinstance(b, tuple) and a and b and a[0] == 'tuple' and b[0] == 'tuple' and len(a) == 2 and len(b) == 2 \
+                and len(a[1]) == len(b[1]) and 0 < len(a[1]) <= 6:
+            return ('tuple', tuple(self.ite(c, x_, y_) for x_, y_ in zip(a[1], b[1])))
+        # N44: a conditional between two applications of one binary operator that share an operand keeps the operand outside:
+        #      x / a if c else x / b  is  x / (a if c else b)
+        if isinstance(a, tuple) and isinstance(b, tuple) and a and b and a[0] == 'bin' and b[0] == 'bin' and len(a) == 4 and len(b) == 4 and a[1] == b[1]:
+            if a[2] == b[2]:
+                return self.binop(a[1], a[2], self.ite(c, a[3], b[3]))
+            if a[3] == b[3]:
+                return self.binop(a[1], self.ite(c, a[2], b[2]), a[3])
         # N40: a conditional element store is an unconditional store of a conditional value:
         #      `if c: A[i] = v`  is  `A[i] = v if c else A[i]`   (scalar index, no slices: the element keeps its value otherwise)
         if isinstance(a, tuple) and isinstance(b, tuple) and a and b and a[0] == 'store' and b[0] == 'store' and len(a) == 4 and len(b) == 4 \
@@ -1482,6 +1528,11 @@ class Normalizer:
             bs = self._resubst(t[1], what, by, memo)
             its = tuple(self._resubst(it, what, by, memo) for it in t[2])
             r = t if (bs is t[1] and all(x is y for x, y in zip(its, t[2]))) else self.index(bs, its)
+        elif t[0] == 'store' and len(t) == 4:
+            bs = self._resubst(t[1], what, by, memo)
+            its = tuple(self._resubst(it, what, by, memo) for it in t[2])
+            vv = self._resubst(t[3], what, by, memo)
+            r = t if (bs is t[1] and vv is t[3] and all(x is y for x, y in zip(its, t[2]))) else self.store(bs, its, vv)
         else:
             parts = tuple(self._resubst(y, what, by, memo) for y in t)
             r = t if all(x is y for x, y in zip(parts, t)) else parts
@@ -1591,6 +1642,10 @@ class Normalizer:
         ti = self._tuple_item(b, items)
         if ti is not None:
             return ti
+        # N48: element i of the comprehension list  [g(j) for j in range(n)]  with i the variable of a loop over range(n)  is  g(i)
+        if b[0] == 'lam' and len(b) == 4 and len(items) == 1 and isinstance(items[0], tuple) and items[0] and items[0][0] == 'iv' \
+                and self.loop_headers.get(items[0][1]) == ('for', ('call', 'range', (b[2],), ())):
+            return self._resubst(b[3], ('bv', b[1]), items[0])
         # N39: x.shape[0] is len(x) (wherever x has a shape)
         if b[0] == 'attr' and len(b) == 3 and b[2] == 'shape' and len(items) == 1 and is_num(items[0], 0):
             return self.fn_call('len', (b[1],), ())
@@ -1909,6 +1964,8 @@ class Normalizer:
                 return self.dot(args[0], args[1])                      # N4
             if name == 'SafeClip' and len(args) == 3:
                 return ('call', 'SafeClip', args, ())
+        if name == 'len' and len(args) == 1 and not kwargs and isinstance(args[0], tuple) and args[0] and args[0][0] == 'lam' and len(args[0]) == 4:
+            return args[0][2]               # the length of a comprehension list is its range
         if name == 'len' and len(args) == 1 and not kwargs:
             # N42: the length of a value whose first extent is known - a constant, or the contract symbol it shares with other values
             sh_ = self.shape(args[0])
